@@ -258,6 +258,7 @@ enum Work {
 }
 
 pub fn run(tier: Tier) -> i32 {
+    crate::subj::SIG_PROTOCOL.store(true, std::sync::atomic::Ordering::Relaxed);
     let t = tier.thorough();
     let budget = Budget::new(if t { 14 * 60 } else { 50 });
     let descs = if t { descriptors(&TYPES8, 4) } else { descriptors(&TYPES6, 3) };
@@ -336,15 +337,26 @@ pub fn run(tier: Tier) -> i32 {
         prop: "C16",
         tier,
         level: "model_checking",
-        rule: format!("all {} descriptors with <= {} parameters over the type alphabet (primitive, primitive array, mapped object, object named like a primitive, unmapped object containing 'L', nested non-ASCII object array, unmapped names a/b$b and a/b$ whose '$'-prefix is mapped, mapped classes whose obfuscated name lies in java. / javax.{}), plus array dimensions / parameter counts / name lengths of 127..257 and 1000 x every return type incl. V, plus 4..6 parameters of one type; every single-character deletion, substitution and insertion (10-character alphabet) of each; all strings of <= {} characters over that alphabet; x 3 mappings x {{mapper, cache}}. Oracle: an independent JVM-descriptor parser + R14 (valid => exact parameter list, return type and formatted signature; no parenthesised list / no return type / unterminated object type => none; otherwise only mapper == cache and no panic). distinct = distinct expected results", ndesc, if t { 4 } else { 3 }, if t { ", Z, object array" } else { "" }, strdepth),
+        rule: format!("(every answer is read through return_type(), parameters_types(), format_signature() AND Display; with >= 2 parameters the parameters_types() iterator is also consumed through nth / skip / step_by / last / count / size_hint; plus the handle-history pass of props/hist.rs: a second cache / mapper created in the memory of a dropped one) all {} descriptors with <= {} parameters over the type alphabet (primitive, primitive array, mapped object, object named like a primitive, unmapped object containing 'L', nested non-ASCII object array, unmapped names a/b$b and a/b$ whose '$'-prefix is mapped, mapped classes whose obfuscated name lies in java. / javax.{}), plus array dimensions / parameter counts / name lengths of 127..257 and 1000 x every return type incl. V, plus 4..6 parameters of one type; every single-character deletion, substitution and insertion (10-character alphabet) of each; all strings of <= {} characters over that alphabet; x 3 mappings x {{mapper, cache}}. Oracle: an independent JVM-descriptor parser + R14 (valid => exact parameter list, return type and formatted signature; no parenthesised list / no return type / unterminated object type => none; otherwise only mapper == cache and no panic). distinct = distinct expected results", ndesc, if t { 4 } else { 3 }, if t { ", Z, object array" } else { "" }, strdepth),
         bounds: json!({"descriptors": ndesc, "string_depth": strdepth, "edit_alphabet": EDIT_CHARS.iter().map(|c| c.to_string()).collect::<Vec<_>>(), "mappings": sig_mappings().iter().map(|(l, m)| json!({"label": l, "text": esc(&print_file(m, Term::Lf))})).collect::<Vec<_>>()}),
         assumptions: vec!["a class name inside L...; may not contain [ . ( ) (JVM spec + parenthesis-free so that the parameter list is unambiguous); such strings get no claim".into()],
         trusted_base: vec!["rustc/std".into(), "descriptor parser and R14 in pgmc/src/props/c16.rs".into(), "reference model pgmc/src/model.rs (class lookup R8)".into()],
     };
+    let mut acc = acc;
+    {
+        // handle-history pass: handles parsed from recycled memory (props/hist.rs)
+        let mut h = Acc::new();
+        super::hist::reuse_history(&mut h);
+        acc.merge(h);
+    }
     finish(meta, acc, &budget, &|c| recheck(c))
 }
 
 pub fn recheck(case: &Value) -> Vec<String> {
+    crate::subj::SIG_PROTOCOL.store(true, std::sync::atomic::Ordering::Relaxed);
+    if case["kind"] == "reuse-history" {
+        return super::hist::recheck(case);
+    }
     let mut acc = Acc::new();
     let label = case["mapping"].as_str().unwrap_or("");
     let sig = case["signature"].as_str().unwrap_or("").to_string();
